@@ -193,6 +193,10 @@ def run_one(I: Interp, reg: Registry, ci: ContractInfo, f, known_excludes=()):
                         continue
                     bad.append(f'{what.strip()} at {func}:{line}')
                 I.oblige('frame', 'nothing-visible-written-before-the-cut', len(bad) == 0, note='; '.join(bad))
+                # the exceptional exits before the cut: the loop is reached only when the contract demands no exception
+                if ci.has('raises'):
+                    for exc_name, cond in reg.call_clause(I, ci, 'raises', vals).items():
+                        I.oblige('exc', f'no-{exc_name}', simp(z3.Not(zbool(I.truth(cond)))), note='the loop is reached although the contract demands this exception')
                 return 'cut'
         elif ci.kind == 'const':
             mod, expr = I.index.const_expr(ci.const)
@@ -205,7 +209,14 @@ def run_one(I: Interp, reg: Registry, ci: ContractInfo, f, known_excludes=()):
     table = reg.call_clause(I, ci, 'raises', vals) if ci.has('raises') else {}
     I.cur_func, I.cur_line = (f.qualname if f is not None else ci.name), None
     if cut:
-        return outcome          # a cut-point contract says nothing about the exits of the function
+        # a cut-point contract says nothing about the normal exits of the function; an exception raised on the way to the cut point
+        # is checked against its `raises` table (which exception, under which condition)
+        if outcome == 'raise' and ci.has('raises'):
+            if exc.exc_name in table:
+                I.oblige('exc', exc.exc_name, I.truth(table[exc.exc_name]), note=f'raised at {exc.func}:{exc.line}')
+            else:
+                I.oblige('safe', f'no-{exc.exc_name}', False, note=f'uncaught {exc.exc_name} raised at {exc.func}:{exc.line}')
+        return outcome
     if outcome == 'normal':
         for exc_name, cond in table.items():
             I.oblige('exc', f'no-{exc_name}', simp(z3.Not(zbool(I.truth(cond)))), note='normal return although the contract demands this exception')
